@@ -150,6 +150,10 @@ class FakeSnowflakeCursor:
                 transformed = self._transform(exp)
                 self._execute(transformed, params)
 
+            if isinstance(expression, sqlglot.exp.Merge) and self._arrow_table is not None:
+                # the status row of MERGE holds the numbers of rows inserted, updated and deleted
+                self._rowcount = sum(int(n or 0) for row in self._arrow_table.to_pylist() for n in row.values())
+
             return self
         except snowflake.connector.errors.ProgrammingError as e:
             self._sqlstate = e.sqlstate
